@@ -272,6 +272,14 @@ func (l *lex) nextToken() Token {
 	case '-':
 		// We lex unary - with the integer if possible.
 		if l.bytes[l.pos] >= '0' && l.bytes[l.pos] <= '9' {
+			if l.bytes[l.pos] == '0' && l.bytes[l.pos+1] == 'o' {
+				// Negative octal literal; as for positive ones the 'o' is dropped and the leading zero kept.
+				l.pos += 2
+				l.col += 2
+				tok := l.consumeInteger('0', pos)
+				tok.Value = "-" + tok.Value
+				return tok
+			}
 			return l.consumeInteger(next, pos)
 		}
 		return Token{Type: rune(next), Value: string(next), Pos: pos}
